@@ -9,16 +9,19 @@ package c06
 //	complete output (types, values, units, flags, nesting, line/column) is compared with the
 //	specification-shaped Lean model's.
 //
-//	A difference is attributed: the model is asked again with each documented defect switched on
-//	(lean/WR/C06/Tokenizer.lean, `Quirks`); if exactly that reproduces the implementation's output
-//	the case is a "judge" finding with Key = the defect (the specification, i.e. the property text,
-//	says otherwise); a difference no documented defect explains is a "corr" finding.
+//	First the corpus (/verif/corpus/C06: minimal inputs of the repaired defects with their expected
+//	token trees).  A difference is attributed: the model is asked again with each formerly observed
+//	defect switched on (lean/WR/C06/Tokenizer.lean, `Quirks`); if exactly that reproduces the
+//	implementation's output the case is a "judge" finding with Key = the defect (a regression: the
+//	specification, i.e. the property text, says otherwise); a difference no such defect explains is
+//	a "corr" finding.
 
 import (
 	"encoding/json"
 	"fmt"
 	"os"
 	"path/filepath"
+	"sort"
 	"strings"
 	"time"
 	"unicode/utf8"
@@ -184,6 +187,73 @@ func Corpus(repo string) []string {
 	return out
 }
 
+type corpusCase struct {
+	Name         string `json:"name"`
+	Fixed        string `json:"fixed"`
+	Entry        string `json:"entry"`
+	SkipComments bool   `json:"skipComments"`
+	CSS          string `json:"css"`
+	Expected     string `json:"expected"`
+}
+
+// CorpusDir is /verif/corpus/<prop> (located from the harness binary /verif/.build/wrh_<prop>).
+func CorpusDir(prop string) string {
+	exe, err := os.Executable()
+	if err != nil {
+		return filepath.Join("/verif", "corpus", prop)
+	}
+	return filepath.Join(filepath.Dir(filepath.Dir(exe)), "corpus", prop)
+}
+
+// corpus runs /verif/corpus/C06/*.json first: minimal inputs of repaired defects with the token tree
+// css-syntax-3 prescribes (stored, independent of the model).  Any deviation is a failing input.
+func (rn *runner) corpus() error {
+	files, _ := filepath.Glob(filepath.Join(CorpusDir("C06"), "*.json"))
+	sort.Strings(files)
+	for _, f := range files {
+		var c corpusCase
+		b, err := os.ReadFile(f)
+		if err == nil {
+			err = json.Unmarshal(b, &c)
+		}
+		if err != nil || c.Expected == "" {
+			return fmt.Errorf("corpus file %s: unreadable or empty (%v)", f, err)
+		}
+		var e *entry
+		for i := range entries {
+			if entries[i].name == c.Entry {
+				e = &entries[i]
+			}
+		}
+		if e == nil {
+			return fmt.Errorf("corpus file %s: unknown entry %q", f, c.Entry)
+		}
+		var impl sx.X
+		o := render.Guard(30*time.Second, func() { impl = e.run(c.CSS, c.SkipComments, false) })
+		rn.out.Count("corpus:"+c.Name, true)
+		rn.out.Hit("source:corpus")
+		switch {
+		case !o.OK():
+			rn.out.Add(res.Finding{Kind: "crash", Op: "crash:corpus", Input: c.CSS, Reason: "regression of " + c.Fixed + ": panic/timeout: " + o.Panic, Key: c.Name})
+		case impl.String() != c.Expected:
+			rn.out.Add(res.Finding{Kind: "judge", Op: "judge:corpus", Input: c.CSS, Impl: impl.String(), Model: c.Expected,
+				Reason: "regression of " + c.Fixed + ": the token tree differs from the one css-syntax-3 prescribes", Key: c.Name})
+		}
+		// the model must agree with the stored expectation too
+		ans, err := rn.m.Ask(request(*e, 0, c.SkipComments, false, c.CSS))
+		if err != nil {
+			return err
+		}
+		if ans.String() != c.Expected {
+			rn.out.Add(res.Finding{Kind: "corr", Op: "corr:corpus", Input: c.CSS, Impl: c.Expected, Model: ans.String(), Reason: "model disagrees with the stored corpus expectation", Key: c.Name})
+		}
+	}
+	if len(files) == 0 {
+		rn.out.NotChecked = append(rn.out.NotChecked, "corpus/C06 (no files found)")
+	}
+	return nil
+}
+
 // Run is the runner entry.
 func Run(tier string, seed uint64, modelPath, repo string, out *res.Result) error {
 	m, err := mp.Start(modelPath)
@@ -224,6 +294,9 @@ func Run(tier string, seed uint64, modelPath, repo string, out *res.Result) erro
 		return nil
 	}
 
+	if err := rn.corpus(); err != nil {
+		return err
+	}
 	for _, s := range EdgeCases {
 		if err := all(s, "edge", r.Sub()); err != nil {
 			return err
